@@ -615,6 +615,22 @@ def reuse_check(ctx, c, outs):
         m.phase = Phase(point_group="1", structure=new_struct)
     else:
         m.phase.structure.lattice.setLatBase(np.array(c["B2"]).reshape(3, 3))
+    # the lattice vectors a phase hands out (a_axis … cr_axis) are values: editing them through the public setters leaves
+    # the lattice of the phase as it was
+    L = m.phase.structure.lattice
+    base0, rec0, par0 = np.array(L.base, copy=True), np.array(L.recbase, copy=True), tuple(L.abcABG())
+    for j, nm in enumerate(("a_axis", "b_axis", "c_axis", "ar_axis", "br_axis", "cr_axis")):
+        t = getattr(m.phase, nm)
+        want = base0[j] if j < 3 else rec0[:, j - 3]
+        if np.abs(np.asarray(t.data, float).reshape(3) - want).max() > 1e-12 * max(1.0, float(np.abs(want).max())):
+            return f"phase.{nm} = {np.asarray(t.data).reshape(3).tolist()} but the lattice has {want.tolist()}"
+        if j < 3:
+            t.uvw = [[1.0, 1.0, 0.0]]
+        else:
+            t.hkl = [[0.0, 1.0, 1.0]]
+    if not (np.array_equal(L.base, base0) and np.array_equal(L.recbase, rec0) and tuple(L.abcABG()) == par0):
+        return (f"editing the vectors returned by phase.a_axis … cr_axis changed the lattice of the phase: base {base0.tolist()} -> "
+                f"{np.asarray(L.base).tolist()}")
     fresh = Miller(xyz=np.array(m.data, copy=True), phase=m.phase.deepcopy())
     fresh.coordinate_format = m.coordinate_format
     k = cond(fresh.phase.structure.lattice.base)
